@@ -255,6 +255,37 @@ def routes(mc, acc, k, slice_noparser):
             rs.append(('CTL<-text(parser=None)', mc('CTL', f, 'text-noparser')))
             rs.append(('CTLS<-text(parser=None)', mc('CTLS', f, 'text-noparser')))
         agree(f, rs, opt)
+    # atoms whose names are operator words glued to a name: the text route must read them as the
+    # same atoms as the object route, whatever was parsed before on the same parser
+    def sub(f, m):
+        if f[0] == 'ap':
+            return ('ap', m.get(f[1], f[1]))
+        if f[0] in ('t', 'f'):
+            return f
+        return (f[0],) + tuple(sub(x, m) for x in f[1:])
+    glue_maps = [{'p': 'notp', 'q': 'EFp'}, {'p': 'AGq', 'q': 'pandq'}, {'p': 'Xp', 'q': 'P'},
+                 {'p': 'a' * 70 + '1', 'q': 'a' * 70 + '2'}]
+    for gm in glue_maps:
+        lab = [[gm.get(a, a) for a in l] + (['p'] if i == 0 else []) for i, l in enumerate(k.lab)]
+        k2 = spaces.K(k.n, k.succ, lab)
+        mc2 = MC(k2, lib.to_kripke(k2), acc)
+        for f0 in ctl_forms[4:60:3] + [('not', P), ('E', ('F', P)), ('A', ('G', Q)), ('and', P, Q)]:
+            f = sub(f0, gm)
+            plain = f0
+            # first the look-alike text over the ordinary atoms, then the glued one
+            mc2('CTL', plain, 'text')
+            mc2('CTLS', plain, 'text')
+            rs = [('CTL<-CTL obj', mc2('CTL', f)), ('CTL<-text', mc2('CTL', f, 'text')),
+                  ('CTLS<-CTLS obj', mc2('CTLS', f)), ('CTLS<-text', mc2('CTLS', f, 'text'))]
+            base = None
+            for name, r in rs:
+                if r[0] != 'set':
+                    acc.violation('route-exception', kcase(k2, f, route=name), 'a set', r)
+                elif base is None:
+                    base = (name, frozenset(r[1]))
+                elif frozenset(r[1]) != base[1]:
+                    acc.violation('routes-disagree', kcase(k2, f, route=name, other=base[0]), sorted(base[1]), r)
+            acc.ev(len(rs), 1)
     ltl_forms = [('A', g) for s in (0, 1) for g in spaces.path_by_size(s)] + \
                 [('A', g) for g in spaces.nary_path((P, Q, T))[::9]]
     for j, f in enumerate(ltl_forms):
